@@ -9,7 +9,11 @@ N2  every state at a Some(position) construction in airborne_position has one pa
 N3  the returned latitude lies in [-90, 90] and is not NaN; panic obligations of
     airborne_position (incl. `nl(lat) - 1`).
 N4  a position is only built under the guard NL(lat_even) = NL(lat_odd); the longitude is not NaN.
-Not decided: 10 m accuracy, longitude in [-180, 180), "None only when the NL bands differ" (the converse of N4).
+N5  the returned longitude lies in [-180, 180): `modulo(a, b)` has the normal form a - b*floor(a/b) (M0), hence
+    for integer-valued a and an integer b >= 1 below 2^24 its result is an integer of [0, b-1]; with the states
+    partitioned by the number of longitude zones (a constant per state, nl() inlined) the interval of
+    (360/ni)*(m mod ni + cpr) stays below 360 and the final wrap gives [-180, 180).
+Not decided: 10 m accuracy, "None only when the NL bands differ" (the converse of N4).
 """
 import math
 
@@ -209,3 +213,78 @@ def run(prog, rep, tier):
                   sample={'latitude_interval': [lat[1], lat[2]], 'nan': lat[3]} if lat[0] == 'F' else None)
     rep.check(seen_pairs == {('Even', 'Odd'), ('Odd', 'Even')}, 'N2-opposite-parity', 'airborne_position#both-orders', f_ap['file'],
               'positions are produced for parity orders %s; expected both (Even, Odd) and (Odd, Even)' % sorted(seen_pairs))
+    n5_longitude(prog, rep, f_ap, mkmsg, c_old, c_new)
+
+
+def n5_longitude(prog, rep, f_ap, mkmsg, c_old, c_new):
+    f_mod = util.find_fn(prog, 'decode::cpr::modulo', crate='rs1090')
+    if f_mod is None:
+        rep.missing('decode::cpr::modulo')
+        return
+    # M0: normal form of modulo
+    E0 = runner.make_engine(prog, K=4)
+    ta, tb = T('o', ('p', 'a')), T('o', ('p', 'b'))
+    rets = runner.run_entry(E0, f_mod, [E0.reg(('F', -1e12, 1e12, False, ta)), E0.reg(('F', 1.0, 64.0, False, tb))], quiet=True)
+    want = A.mkterm('Sub', ta, A.mkterm('Mul', tb, A.mkterm('floor', A.mkterm('Div', ta, tb))))
+    got = [E0.scalar(st, v)[4] for st, v in rets]
+    rep.check(len(got) == 1 and got[0] == want, 'N5-longitude-range', 'modulo#normal-form', f_mod['file'],
+              'modulo(a, b) is not a - b*floor(a/b): %s' % [A.show_term(g) if g else None for g in got], sample={'modulo': 'a - b*floor(a/b)'})
+    if not (len(got) == 1 and got[0] == want):
+        return
+    f_nl = util.find_fn(prog, 'decode::cpr::nl', crate='rs1090')
+    used = [0]
+    lons = []
+    for k_nl in range(1, 60):
+        _n5_pass(prog, f_ap, f_mod, f_nl, mkmsg, c_old, c_new, k_nl, used, lons)
+    rep.floor('positions built (longitude pass)', len(lons), 59)
+    rep.floor('modulo calls summarised on integral arguments', used[0], 59)
+    lo = min((x[1] for x, _, _ in lons if x[0] == 'F'), default=None)
+    hi = max((x[2] for x, _, _ in lons if x[0] == 'F'), default=None)
+    bad = [(x, sp, k_) for x, sp, k_ in lons if not (x[0] == 'F' and not x[3] and x[1] >= -180.0 and x[2] < 180.0)]
+    rep.check(not bad, 'N5-longitude-range', 'airborne_position#longitude-range', '%s:%s' % (f_ap['file'], bad[0][1] if bad else ''),
+              'with NL = %s a returned longitude ranges over %s, not [-180, 180)' % (bad[0][2] if bad else '', A.show_val(bad[0][0]) if bad else ''),
+              sample={'longitude interval over all NL and parities': [lo, hi], 'states': len(lons)})
+
+
+def _n5_pass(prog, f_ap, f_mod, f_nl, mkmsg, c_old, c_new, k_nl, used, lons):
+    # all nl() calls of a state that builds a position return the same value (rule N4): that value is k_nl here
+    E = runner.make_engine(prog, K=16)
+
+    class NlConst:
+        def exit(self, E_, nf, rets_):
+            for i, (st, v) in enumerate(rets_):
+                rets_[i] = (st, A.const_int(k_nl))
+            del rets_[1:]
+    E.hooks[f_nl['id']] = NlConst()
+
+    class ModHook:
+        def entry(self, E_, nf, ins):
+            E_.gc_roots.add((nf.depth, 1))
+            E_.gc_roots.add((nf.depth, 2))
+
+        def exit(self, E_, nf, rets_):
+            for i, (st, v) in enumerate(rets_):
+                a = E_.scalar(st, st.cells[(nf.depth, 1)]) if (nf.depth, 1) in st.cells else None
+                b = E_.scalar(st, st.cells[(nf.depth, 2)]) if (nf.depth, 2) in st.cells else None
+                if a is None or b is None or a[0] != 'F' or b[0] != 'F':
+                    continue
+                integral_a = a[4] is not None and a[4][0] in ('floor', 'itof') and not a[3] and abs(a[1]) < 2 ** 24 and abs(a[2]) < 2 ** 24
+                const_b = b[1] == b[2] and not b[3] and b[1] >= 1.0 and b[1] == int(b[1]) and b[1] < 2 ** 24
+                if integral_a and const_b:
+                    # a / b is exact or at least 1/b away from an integer: floor is exact, the result an integer of [0, b-1]
+                    used[0] += 1
+                    rets_[i] = (st, E_.reg(('F', 0.0, b[1] - 1.0, False, T('o', E_.site(nf, 0, ('mod', i))))))
+    E.hooks[f_mod['id']] = ModHook()
+
+    def hook(E_, st, frame, bb, idx, stmt, v):
+        if frame.depth != 0 or stmt['rv']['k'] != 'agg' or stmt['rv']['ak']['k'] != 'adt':
+            return
+        if prog.types[stmt['rv']['ak']['ty']]['name'] == 'decode::cpr::Position':
+            lons.append((E_.scalar(st, E_.operand(st, frame, stmt['rv']['ops'][1])), stmt.get('sp'), k_nl))
+    E.stmt_hook = hook
+    E.gc_roots.update((c_old, c_new))
+
+    def pre(E_, st, fr):
+        st.cells[c_old] = mkmsg(E_, 'oldest')
+        st.cells[c_new] = mkmsg(E_, 'latest')
+    runner.run_entry(E, f_ap, [('R', c_old, (), False), ('R', c_new, (), False)], pre=pre, quiet=True)
